@@ -90,6 +90,9 @@ SAMPLE = Arr(0, 0, True)
 # symbolic anatomy
 
 
+_RECIPE_MEMO = {}  # structural memo: the post hook is applied to every sub-term again and again as terms grow
+
+
 def _recipes(e):
     """Replace recognised NumPy recipes by role symbols:
        slice(np.insert(np.cumsum(a),0,0),0|None,-1,None)  -> SX(a)   exclusive prefix sum
@@ -106,6 +109,15 @@ def _recipes(e):
             return x
         if x.is_Atom:
             return x
+        hit = _RECIPE_MEMO.get(x)
+        if hit is not None:
+            return hit
+        out = rec1(x)
+        if len(_RECIPE_MEMO) < 200000:
+            _RECIPE_MEMO[x] = out
+        return out
+
+    def rec1(x):
         args = [rec(a) for a in x.args]
         if isinstance(x, sp.Function) or x.is_Function:
             fname = x.func.__name__
